@@ -63,7 +63,7 @@ fn main() {
     let max_size = if thorough { 4 } else { 3 };
     let members = c07_members();
     let subsets: Vec<Vec<usize>> = combi::subsets(members.len(), 1, max_size).into_iter().map(|s| s.iter().map(|&i| members[i]).collect()).collect();
-    rep.rule = format!("collector pool {:?}; all subsets of size <= {} x all registration orders (for sizes up to 3, thorough 4; one order above) x all registry-internal collect orders (observed through a Spy collector; fresh registries are rebuilt until all m! orders have been seen) x all iteration orders of the caller's common-label HashMap x 6 registry configurations (plain, prefix, 1/2/3 common labels incl. names sorting before and after the metrics' own labels, prefix+2); each gather() compared with the reference gather, then the first registered collector is unregistered and gather() compared again; all results for one (subset, config) must be identical. distinct = distinct canonical results", c07_members().iter().map(|i| POOL[*i].name).collect::<Vec<_>>(), max_size);
+    rep.rule = format!("collector pool {:?}; all subsets of size <= {} x all registration orders (for sizes up to 3, thorough 4; one order above) x all registry-internal collect orders (observed through a Spy collector; fresh registries are rebuilt until all m! orders have been seen) x all iteration orders of the caller's common-label HashMap x 6 registry configurations (plain, prefix, 1/2/3 common labels incl. names sorting before and after the metrics' own labels, prefix+2); each gather() compared with the reference gather, then the first registered collector is unregistered and gather() compared again; all results for one (subset, config) must be identical; plus wide registries (17..130 counters and a vector with as many children, registered / created in scrambled orders, 6 builds each with whatever internal orders occur — not an enumeration of orders) judged for completeness, name order and label-value order. distinct = distinct canonical results", c07_members().iter().map(|i| POOL[*i].name).collect::<Vec<_>>(), max_size);
     rep.bounds = json!({"subset_size": max_size, "pool": c07_members().len(), "configs": configs().len()});
     let work: Mutex<Vec<Vec<usize>>> = Mutex::new(subsets);
     let reports: Mutex<Vec<Report>> = Mutex::new(vec![]);
@@ -146,6 +146,84 @@ fn main() {
     });
     for r in reports.into_inner().unwrap() {
         rep.merge(r);
+    }
+    // wide registries: many families and many children registered / created in a scrambled order (sizes around the
+    // thresholds at which sorting routines switch strategy). The internal collect order cannot be enumerated here
+    // (N! orders): each size is built 6 times with whatever orders the hash maps produce; the verdict (sorted, complete,
+    // same result every time) does not depend on which ones occurred.
+    for &n in &[17usize, 21, 33, 65, 130] {
+        for (ci, cfg) in configs().into_iter().enumerate() {
+            if ci % 2 == 1 && !thorough {
+                continue;
+            }
+            let mut first: Option<Vec<String>> = None;
+            for round in 0..6 {
+                rep.evaluations += 1;
+                rep.transitions += (2 * n + 2) as u64;
+                let r = watchdog::case(|| format!("wide registry n={} cfg={:?}", n, cfg), || catch(|| -> Result<Vec<String>, String> {
+                    let lm: Option<std::collections::HashMap<String, String>> = if cfg.labels.is_empty() { None } else { Some(cfg.labels.iter().map(|(a, b)| (a.to_string(), b.to_string())).collect()) };
+                    let reg = prometheus::Registry::new_custom(cfg.prefix.map(|s| s.to_string()), lm).map_err(|e| e.to_string())?;
+                    let step = [19usize, 23, 29, 31, 37, 41][round]; // coprime to every size
+                    let vecf = prometheus::IntCounterVec::new(prometheus::Opts::new("wide_vec", "h"), &["k"]).map_err(|e| e.to_string())?;
+                    for j in 0..n {
+                        let i = (j * step + round) % n;
+                        let c = prometheus::IntCounter::new(format!("w{:03}", i), "h").map_err(|e| e.to_string())?;
+                        c.inc_by(i as u64 + 1);
+                        reg.register(Box::new(c)).map_err(|e| format!("register w{:03}: {}", i, e))?;
+                        vecf.with_label_values(&[&format!("v{:03}", i)]).inc_by(i as u64 + 1);
+                    }
+                    reg.register(Box::new(vecf)).map_err(|e| e.to_string())?;
+                    let got: Vec<RFamily> = reg.gather().iter().map(RFamily::from_proto).collect();
+                    let mut common: Vec<(String, String)> = cfg.labels.iter().map(|(a, b)| (a.to_string(), b.to_string())).collect();
+                    common.sort();
+                    let pre = |s: String| match cfg.prefix { Some(p) => format!("{}_{}", p, s), None => s };
+                    let mut exp: Vec<(String, Vec<(Vec<(String, String)>, f64)>)> = (0..n).map(|i| (pre(format!("w{:03}", i)), vec![(common.clone(), (i + 1) as f64)])).collect();
+                    exp.push((pre("wide_vec".into()), (0..n).map(|i| { let mut l = vec![("k".to_string(), format!("v{:03}", i))]; l.extend(common.clone()); (l, (i + 1) as f64) }).collect()));
+                    exp.sort_by(|a, b| a.0.cmp(&b.0));
+                    let shown: Vec<(String, Vec<(Vec<(String, String)>, f64)>)> = got.iter().map(|f| (f.name.clone(), f.metrics.iter().map(|m| (m.labels.clone(), m.counter.unwrap_or(f64::NAN))).collect())).collect();
+                    if shown.len() != exp.len() {
+                        return Err(format!("{} families gathered, {} registered", shown.len(), exp.len()));
+                    }
+                    for (g, e) in shown.iter().zip(&exp) {
+                        if g.0 != e.0 {
+                            return Err(format!("family {:?} where {:?} is expected (families must be sorted by name)", g.0, e.0));
+                        }
+                        let norm = |v: &Vec<(Vec<(String, String)>, f64)>| -> Vec<(Vec<(String, String)>, u64)> { v.iter().map(|(l, x)| { let mut l = l.clone(); l.sort(); (l, x.to_bits()) }).collect() };
+                        let (mut gl, mut el) = (norm(&g.1), norm(&e.1));
+                        let order_ok = g.1.iter().map(|(l, _)| l.iter().find(|(k, _)| k == "k").map(|(_, v)| v.clone())).collect::<Vec<_>>() == e.1.iter().map(|(l, _)| l.iter().find(|(k, _)| k == "k").map(|(_, v)| v.clone())).collect::<Vec<_>>();
+                        gl.sort();
+                        el.sort();
+                        if gl != el {
+                            return Err(format!("family {:?}: samples differ from what was recorded ({} shown, {} expected)", g.0, gl.len(), el.len()));
+                        }
+                        if !order_ok {
+                            return Err(format!("family {:?}: samples are not sorted by label value", g.0));
+                        }
+                    }
+                    Ok(got.iter().map(|f| f.key(true)).collect())
+                }));
+                let r = match r {
+                    Ok(r) => r,
+                    Err(p) => Err(format!("panicked: {}", p)),
+                };
+                match r {
+                    Ok(keys) => {
+                        if let Some(f) = &first {
+                            if *f != keys {
+                                rep.violation("wide-registry:result-depends-on-order", format!("{} families, config {:?}: two builds of the same registry gather differently", n + 1, cfg), json!({"engine":"enum","members": format!("wide({})", n), "config": format!("{:?}", cfg), "detail": "gather result differs between builds"}));
+                            }
+                        } else {
+                            first = Some(keys);
+                        }
+                        rep.outcome(format!("wide|{}|{}", n, ci));
+                    }
+                    Err(d) => {
+                        rep.violation(format!("wide-registry:{}", if d.contains("sorted") { "not-sorted" } else { "incomplete-or-wrong" }), format!("{} counters + one vector of {} children, config {:?}: {}", n, n, cfg, d), json!({"engine":"enum","members": format!("wide({})", n), "config": format!("{:?}", cfg), "detail": d}));
+                        break;
+                    }
+                }
+            }
+        }
     }
     rep.states = rep.evaluations;
     rep.traces = rep.evaluations;
